@@ -250,6 +250,12 @@ async fn exec<const N: usize>(st: &mut St<N>, ctx: &mut Ctx, toks: &[&str]) {
             Ok(()) => ctx.emit("open ok"),
             Err(e) => ctx.emit(format!("open Err {}", err_class(&e))),
         },
+        ("cfgnext", [kv]) => {
+            if let Some(v) = kv.strip_prefix("init=") {
+                st.cfg.lazy = v == "lazy";
+            }
+            ctx.emit("cfgnext");
+        }
         ("know", [len, seed]) => {
             // register a payload written by an earlier process so that reads can name it
             let len: usize = len.parse().unwrap();
@@ -456,8 +462,16 @@ async fn exec<const N: usize>(st: &mut St<N>, ctx: &mut Ctx, toks: &[&str]) {
         ("trunc", [kind, id, n]) => {
             let p = st.file_path(kind, id);
             let n: u64 = n.parse().unwrap();
-            let r = std::fs::OpenOptions::new().write(true).open(&p).and_then(|f| f.set_len(n));
-            ctx.emit(format!("trunc {}", if r.is_ok() { "ok" } else { "absent" }));
+            // truncation only ever shortens a file
+            let cur = std::fs::metadata(&p).map(|m| m.len());
+            match cur {
+                Ok(len) if n >= len => ctx.emit("trunc noop"),
+                Ok(_) => {
+                    let r = std::fs::OpenOptions::new().write(true).open(&p).and_then(|f| f.set_len(n));
+                    ctx.emit(format!("trunc {}", if r.is_ok() { "ok" } else { "absent" }));
+                }
+                Err(_) => ctx.emit("trunc absent"),
+            }
         }
         ("flip", [kind, id, pos, mask]) => {
             let p = st.file_path(kind, id);
